@@ -53,31 +53,51 @@ def H(name, ta, tb, scen, tc=None, hashk=0, rounds=1, unroll=1, depth=1, grow=Fa
                      'rehash_recursion_depth': depth, 'hash': ['identity', 'constant', 'low-bits-collide'][hashk],
                      'table_growth': 'inside the threads (first growth 2 -> 256 buckets)' if grow else 'before the threads (pre-grown to 256 buckets)'})
     if tiers: h['tiers'] = tiers
-    if thorough: h['thorough_override'] = thorough
+    if thorough:
+        # thorough tier of the same harness: deeper bounds, e.g. thorough=dict(rounds=2, unroll=2)
+        tr, tu = thorough.get('rounds', rounds), thorough.get('unroll', unroll)
+        h['thorough_override'] = dict(defines=dict(defs, ROUNDS=tr), unit_override=dict(uo, unroll=tu), timeout=thorough.get('timeout', 3600),
+                                      bounds=dict(h['bounds'], free_rounds=tr, loop_unroll=tu))
     h.update(kw)
     return h
+T2 = dict(rounds=2, unroll=2)
 HARNESSES = [
   dict(name='seg_contract', unit='seg', harness='h_seg.c', scenarios=[{'GROW2': 0}], scenarios_thorough=[{'GROW2': 0}, {'GROW2': 1}], cbmc=['--unwind', '300', '--object-bits', '10'], timeout=600,
        desc='real get_bucket/enable_segment/init_buckets: for every bucket number <= mask (symbolic) the bucket is the right slot of the right block, constructed unlocked with the rehash flag (contracts used by the sparse bucket model of the thread harnesses)',
        bounds={'bucket number': 'all 0..255 (GROW2: 0..511)', 'segments': 'embedded + first block (+ segment 8)'}),
-  H('find_era', 'find', 'era', [S([I(2), C(2)], [2], [2])], desc='find(const_accessor,k) || erase(k): accessor holder vs erase of the same element'),
-  H('era_era', 'era', 'era', [S([I(2), C(2)], [2], [2])], desc='erase(k) || erase(k): exactly one true, node freed once'),
-  H('ins_ins', 'ins', 'ins', [S([I(3), C(2)], [2], [2], KX0=3), S([I(3)], [2], [2], KX0=3)],
-    desc='insert(accessor,k) || insert(accessor,k): exactly one true; bucket of k already rehashed (both start as bucket readers and upgrade) / still to be rehashed from its parent'),
+  H('find_era', 'find', 'era', [S([I(2), C(2)], [2], [2])], thorough=T2, desc='find(const_accessor,k) || erase(k): accessor holder vs erase of the same element'),
+  H('era_era', 'era', 'era', [S([I(2), C(2)], [2], [2])], thorough=T2, desc='erase(k) || erase(k): exactly one true, node freed once'),
+  H('ins_ins', 'ins', 'ins', [S([I(3), C(2)], [2], [2], KX0=3)],
+    thorough=T2, desc='insert(accessor,k) || insert(accessor,k), bucket of k already rehashed: both start as bucket readers, both upgrade; exactly one true, the loser gets the winner\'s element'),
+  H('insn_insn', 'insn', 'insn', [S([I(3)], [2], [2], KX0=3)],
+    thorough=T2, desc='insert(k) || insert(k), bucket of k still to be rehashed from its parent: contention on the try-acquired writer lock of the lazy rehash; exactly one true'),
   H('split', 'insn', 'find', [S([I(4)], [2], [4])],
-    desc='insert(k) rehashing bucket 2 from parent bucket 0 || find(k2) rehashing bucket 4 from the same parent, k2=4 lives in the parent: two lazy splits of one chain'),
+    thorough=T2, desc='insert(k) rehashing bucket 2 from parent bucket 0 || find(k2) rehashing bucket 4 from the same parent, k2=4 lives in the parent: two lazy splits of one chain'),
   H('eacc_era', 'eacc', 'era', [S([I(2), C(2)], [2], [2])],
-    desc='find(accessor,k) + erase(accessor) || erase(k): exactly one of the two erases returns true, the write accessor stays valid until erase(accessor) releases it'),
+    thorough=T2, desc='find(accessor,k) + erase(accessor) || erase(k): exactly one of the two erases returns true, the write accessor stays valid until erase(accessor) releases it'),
   H('findw_ins', 'findw', 'insr', [S([I(3), C(2)], [2], [2], KX0=3)],
-    desc='find(accessor,k) || insert(const_accessor,k): reader/writer element lock exclusion on a freshly inserted element'),
+    thorough=T2, desc='find(accessor,k) || insert(const_accessor,k): reader/writer element lock exclusion on a freshly inserted element'),
   H('grow_race', 'insn', 'insn', [S([], [2], [3])], grow=True,
-    desc='insert(k) || insert(k2) on the EMPTY map: both cross the load-factor threshold, exactly one wins the segment CAS and grows 2 -> 256 buckets; enable_segment interleaved store by store'),
-  H('grow_maskrace', 'insn_cnt', 'insn', [S([], [2, 2], [2])], grow=True, timeout=1800,
+    thorough=T2, desc='insert(k) || insert(k2) on the EMPTY map: both cross the load-factor threshold, exactly one wins the segment CAS and grows 2 -> 256 buckets; enable_segment interleaved store by store'),
+  H('grow_maskrace', 'insn_cnt', 'insn', [S([], [2, 2], [2])], grow=True, timeout=1800, thorough=dict(rounds=2, unroll=1),
     desc='insert(k); count(k) [grows the table, then rehashes k out of bucket 0]  ||  insert(k) that read the old mask: check_mask_race must restart it; exactly one insert true, k linked once'),
   H('chain_const', 'era', 'insn', [S([I(7), C(7)], [7], [5])], hashk=1,
-    desc='constant hash: erase(k) || insert(k2) in the same chain of the same bucket'),
+    thorough=T2, desc='constant hash: erase(k) || insert(k2) in the same chain of the same bucket'),
   H('chain_low', 'find', 'era', [S([I(6), C(6), I(5)], [6], [5], KX0=6)], hashk=2,
-    desc='hashes collide in the low 8 bits: find(k) walking the 2-node chain || erase(k2) unlinking the head of that chain'),
+    thorough=T2, desc='hashes collide in the low 8 bits: find(k) walking the 2-node chain || erase(k2) unlinking the head of that chain'),
+  # ---- thorough only
+  H('find_maskrace', 'insn_find', 'insn_find', [S([], [4, 2], [2, 2])], grow=True, rounds=2, tiers=['thorough'], timeout=5400,
+    desc='EMPTY map: A insert(k1) [wins the segment CAS, grows]; find(k)  ||  B insert(k); find(k): a find that read the old mask after insert(k) completed must restart (check_mask_race) when k has been rehashed out of bucket 0 meanwhile'),
+  H('deep', 'insn', 'find', [S([I(4)], [6], [4])], depth=2, tiers=['thorough'], timeout=3600,
+    desc='rehash recursion 2 deep: insert(6): bucket 6 <- parent 2 (unrehashed) <- grandparent 0 (holds key 4)  ||  find(4) splitting bucket 4 from bucket 0'),
+  H('t3_ins_ins_era', 'ins', 'ins', [S([I(3), C(2)], [2], [2], [2], KX0=3)], tc='era', tiers=['thorough'], timeout=5400,
+    desc='3 threads: insert(k) || insert(k) || erase(k)'),
+  H('t3_find_era_ins', 'find', 'era', [S([I(2), C(2)], [2], [2], [2])], tc='insn', tiers=['thorough'], timeout=5400,
+    desc='3 threads: find(const_accessor,k) || erase(k) || insert(k): erased element must not be destroyed under the accessor, re-insert creates a new element'),
+  H('ins_ins_const', 'ins', 'ins', [S([I(3), C(2)], [2], [2], KX0=3), S([I(3), C(3)], [5], [7], KX0=3)], hashk=1, tiers=['thorough'], thorough=T2,
+    desc='constant hash: insert(k)||insert(k) and insert(k1)||insert(k2) into one chain'),
+  H('ins_era_low', 'insn', 'era', [S([I(6), C(6), I(5)], [7], [6], KX0=5, KX1=6)], hashk=2, tiers=['thorough'], thorough=T2,
+    desc='colliding low bits: insert(k3) at the head of a 2-node chain || erase of the tail node'),
 ]
 OUTSIDE = []
 STUBS = []
